@@ -11,7 +11,7 @@ import tempfile
 from concurrent.futures import ThreadPoolExecutor
 
 sys.path.insert(0, os.path.join(os.path.dirname(os.path.abspath(__file__)), ".."))
-from core import A, PERF, DM_CONSTS, REPO, run_driver, run_impl, src_side, ssb_side  # noqa: E402
+from core import A, PERF, DM_CONSTS, REPO, program_sexp, run_driver, run_impl, src_side, ssb_side  # noqa: E402
 from framework import Run  # noqa: E402
 from gen_prog import Cfg, Gen, prog_size  # noqa: E402
 from gen_ssb import JUMP_IDX  # noqa: E402
@@ -163,8 +163,9 @@ def documented_docs() -> list[tuple[str, dict]]:
 def main() -> None:
     run = Run("C15", "translation_validation")
     run.forbid()
-    run.require_vo(["Ssb/EquivSound.v"])
+    run.require_vo(["Ssb/EquivSound.v", "Script/Renumber.v", "Script/Shift.v"])
     run.props("Props/C01.v")
+    run.props("Props/C15.v")
     q = run.tier == "quick"
     progs = []
     for i in range(120 if q else 1500):
@@ -190,6 +191,21 @@ def main() -> None:
         run.count("compile-cli:" + ("ok" if why is None else "FAIL"))
         if why:
             run.fail("cli-compile:" + why.split(":")[0][:40], why, {"source": t, "cli": clis[i]})
+    # K-cli: the document, numbered as documented, is the model's cli_number of what the compiler produced in process
+    # (theorem C15_cli_numbering_preserves_flow: that numbering keeps the flow graph of every well-formed routine set)
+    from capture import canon_op
+    kidx = [i for i in range(len(progs)) if docs[i] is not None and inproc[i]["ok"]]
+    kmod = run_driver([[A("clinum"), program_sexp(inproc[i]["ops"])] for i in kidx])
+    kfirst = None
+    for i, mo in zip(kidx, kmod):
+        want = json.loads(json.dumps(ops_of_doc(docs[i])))
+        got = json.loads(json.dumps([[canon_op(o) for o in r] for r in mo["ops"]])) if mo.get("r") == "ok" else None
+        same = got == want
+        run.count("K-cli:" + ("ok" if same else "DIFF"))
+        if not same and kfirst is None:
+            kfirst = {"source": texts[i], "document_as_numbered": want, "model": got, "compiled_in_process": inproc[i]["ops"]}
+    if kfirst is not None:
+        run.correspondence_broken("K-cli (Script/Shift.v cli_number)", "the compile command's JSON, numbered as documented, differs from cli_number of the compiled routines", kfirst)
     # jump parameters: the document, numbered as documented, must behave like the source
     idx = [i for i in range(len(progs)) if docs[i] is not None]
     eqs = run_driver([[A("equiv"), src_side(progs[i]), ssb_side(ops_of_doc(docs[i]))] for i in idx])
